@@ -13,21 +13,24 @@ reg("C17",
     "Exhaustive enumeration of all codes 0..65535 (plus boundary and Hypothesis-drawn 32-bit values) through the integer "
     "predicates and through the answer-object predicates on real DiameterAnswer objects (header E bit clear and set), against the "
     "integer-division oracle n//1000; complete for the 16-bit range, sampled beyond; plus generated histories on one answer object "
-    "whose Result-Code is changed in place between looks.",
+    "whose Result-Code is changed in place between looks, answers that also carry an Experimental-Result, and a first-use concurrency "
+    "sweep (fresh interpreter per scenario, one thread parked in the middle of the process's very first predicate call).",
     "Trusted: Python integer arithmetic; ResultCodeAVP construction for the answer-object form. Multiples of 1000 and answers "
     "without Result-Code are outside the statement (counted, not judged).",
     "exhaustive enumeration + property-based sampling against an arithmetic oracle", "DESIGN.md#c17")
 reg("C18",
     "Exhaustive enumeration of every digit string up to length 5 (quick) / 7 (thorough) plus Hypothesis-generated strings, "
-    "structured long strings (length 6..24/40 x every two-digit prefix x suffix/filler classes), ints and MSISDN/STN-SR AVPs up to 20 digits, against an independent nibble-swap reference encoder and the round-trip law.",
+    "structured long strings (length 6..24/40 x every two-digit prefix x suffix/filler classes), ints and MSISDN/STN-SR AVPs up to 20 digits, call histories "
+    "mixing refused inputs with digit strings, and a first-use concurrency sweep in fresh interpreters, against an independent nibble-swap reference encoder and the round-trip law.",
     "Trusted: the 12-line reference encoder ref_tbcd; digit strings only (no TBCD special characters).",
     "exhaustive enumeration + property-based round-trip/differential testing", "DESIGN.md#c18")
 
 reg("C01",
     "Property-based differential test: generated logical content (all header field widths; every dictionary class swept with "
     "in-domain values over all four length residues; generic AVPs; Grouped nesting to depth 4; five ways of adding AVPs; all 50 "
-    "typed command classes; the process time zone as a case dimension) is serialised by bromelia and by an independent struct-based RFC 6733 encoder; byte strings, "
-    "per-AVP encodings and Message Length must agree exactly.",
+    "typed command classes; messages built from another message's header object; the process time zone as a case dimension) is serialised by bromelia and by an independent struct-based RFC 6733 encoder; byte strings, "
+    "per-AVP encodings and Message Length must agree exactly. Plus a first-use concurrency sweep: in fresh interpreters two threads "
+    "serialise their own messages while one of them is parked at successive source lines.",
     "Trusted: vf/refcodec.py (40 lines), ref/avp_dictionary.json (code/vendor/default flags per class), the per-type value table in "
     "vf/gens.py. Sampled, not exhaustive; constructions the library refuses are discards. Grouped-from-bytes members colliding with "
     "a dictionary pair get default flags (known finding C02 excluded by construction).",
@@ -125,7 +128,7 @@ reg("C03",
     "Trusted: step counter (function entries + jumps in bromelia code), bound 5000+400n+n^2/16; reference decoder for the "
     "malformed/well-formed classification. " ,
     "structure-aware mutation testing + coverage-guided fuzzing (atheris) with semantic oracles", "DESIGN.md#c03")
-reg("C04",
+reg("C04 Plus a bounded exhaustive rendezvous sweep: the consumer paused at each source line of the delivery API until the state machine's next hand-over signal.",
     WORLD + "Generated message sequences x segmentations (one segment, aligned, inside header, inside AVP header, bytewise, random, "
     "coalesced, header-prefix) x 1-2 consumers x schedule prefixes (random walk, PCT-like, optional source-line preemption) x targeted "
     "delays (a library thread paused right after leaving a critical section) + fair completion; "
@@ -133,7 +136,7 @@ reg("C04",
     "Schedules are sampled, not enumerated; preemption granularity = shim operation / source line; liveness judged within 12 virtual "
     "seconds; TCP only.",
     "controlled-scheduler concurrency testing (randomised + PCT-like schedules) with a sequence oracle", "DESIGN.md#c04")
-reg("C05",
+reg("C05 Plus staggered submissions, inbound data arriving while a write remainder is pending, the scenario on the second connection of the object, and a bounded exhaustive rendezvous sweep over the send path.",
     WORLD + "1-3 submitter threads x message sequences (sizes crossing the 256 KiB batch limit) x partial-write patterns x inbound "
     "traffic x schedule prefixes; every byte accepted by the fake socket is reference-decoded and compared with the submitted "
     "messages (whole, multiset, per-submitter order).",
@@ -141,7 +144,7 @@ reg("C05",
     "DWR/DWA, DPR/DPA) filtered by command code.",
     "controlled-scheduler concurrency testing with fault injection (partial writes) and a stream oracle", "DESIGN.md#c05")
 
-reg("C08",
+reg("C08 Plus DPRs with other Disconnect-Causes, peer time-out / host-unreachable, a death in the middle of an inbound message, two consumers, traffic in both directions after the restart, and a bounded exhaustive two-consumer rendezvous sweep.",
     WORLD + "Generated (termination cause x life point x role x schedule prefix) cases: local close, DPR, peer FIN/RST, refused "
     "connect at connecting / awaiting CEA / responder awaiting CER / idle Open / queued inbound / queued outbound / blocked consumer / "
     "Closing; at fair completion the state, every fake socket and selector, every controlled thread and the blocked API calls are "
